@@ -70,6 +70,7 @@ VARIABLES cat, sub,     \* catalogue and substring oracle (constant along a beha
           steps
 vars == <<cat, sub, trees, out, act, steps>>
 core == <<cat, trees>>
+coreSteps == <<cat, trees, steps>>   \* model checking with several workers: the step bound must be part of the view
 
 Kinds == {"L", "N"}
 None  == <<>>
